@@ -41,3 +41,6 @@ func BlockHas(block string, frags ...string) bool {
 	}
 	return true
 }
+
+// Sig makes a violation signature space-free (findings files are parsed with strings.Fields).
+func Sig(s string) string { return strings.Join(strings.Fields(s), "_") }
